@@ -22,6 +22,7 @@ MANIFEST = {
 THEOREMS = ["C04_borrow_sound", "C04_withdraw_sound", "C04_isolated_debt_is_only_debt", "C04_nonempty_means_one_unit",
             "C04_handlers_split", "C04_borrow_rejected_only_when_unhealthy", "C04_withdraw_rejected_only_when_unhealthy",
             "C04_never_rejected_while_healthy", "C04_fixed_feed_never_says_rejected",
+            "C04_oracle_model_feeds_never_say_rejected",
             "C04_health_is_sum_of_weighted_values", "C04_position_counts_on_one_side", "C04_liability_value_initial",
             "C04_asset_value_initial", "C04_init_limit_discount", "C04_emode_is_reconciled_over_borrowing_banks",
             "C04_reconcile_present_iff_in_all_and_minimum", "C04_reconcile_absent_iff_missing_somewhere",
@@ -73,4 +74,5 @@ def nontrivial(suite, case, impl):
 def oracle(suite, case, impl):
     if suite == "risk":
         return R.oracle_gate(R.Trace(case, impl))
-    return O.oracle_c04(O.Trace(case, impl))
+    # hops: the shared oracle, then the stricter one of this module (converse direction, unusable prices)
+    return O.oracle_c04(O.Trace(case, impl)) or R.oracle_gate(R.Trace(R.hops_to_risk(case), impl))
